@@ -358,6 +358,30 @@ def check_range_guard(ctx, rule, fi, param, reject, exc, what, env=None, accept_
     return where
 
 
+def check_pow2_guard(ctx, rule, fi, assumptions=None, extra=None, min_m=1, param_classes=None):
+    """M is only tested by the power-of-two predicate: decided by interpreting the function for M = 1..17 and 24, 32, 48, 64"""
+    wrong, exc_bad, where = [], [], fi.node
+    for m in list(range(1, 18)) + [24, 32, 48, 64]:
+        pv = dict(extra or {})
+        pv["M"] = Form.num(m)
+        rej, e, out, _it = _concrete_run(ctx.pkg, fi, pv, assumptions or {}, param_classes)
+        pow2 = m & (m - 1) == 0 and m >= min_m
+        if rej == pow2:
+            wrong.append(m)
+            where = out.node if out is not None else where
+        elif rej and e != "ValueError":
+            exc_bad.append((m, e))
+            where = out.node if out is not None else where
+        elif rej and where is fi.node and out is not None:
+            where = out.node
+    if wrong:
+        ctx.violation(rule, fi, where, f"{fi.qualname}: M power-of-two guard", f"decides wrongly for M in {wrong[:6]}: exactly the orders that are not powers of two must raise ValueError")
+    elif exc_bad:
+        ctx.violation(rule, fi, where, f"{fi.qualname}: M power-of-two guard", f"M={exc_bad[0][0]} raises {exc_bad[0][1]}, documented ValueError")
+    else:
+        ctx.holds(rule, fi, where, f"{fi.qualname}: M power-of-two guard", "rejects exactly the non powers of two among 1..17, 24, 32, 48, 64 -> ValueError")
+
+
 class Reject:
     """oracle predicate with its breakpoints"""
 
